@@ -859,7 +859,7 @@ def _eq_strs(t, var):
 
 
 # ----------------------------------------------------------------------------------------------
-def analyse(chk):
+def _analyse_own(chk):
     chk.rule("chain-j", "spec -> VJ_ID_MAP -> case value -> stored coefficient == documented Gaussian moment")
     chk.rule("chain-j-twin", "_gq and _qg layouts store identical value and derivative per id")
     chk.rule("chain-i", "spec -> VI_ID_MAP -> IFEAT_ID_TO_CONTRIB -> featid ladder -> integral function satisfying the "
@@ -912,6 +912,12 @@ def analyse(chk):
         "the Gaunt contraction",
         "convergence with the auxiliary basis, fast vs slow path agreement, SDMX features",
     ]
+
+
+def analyse(chk):
+    _analyse_own(chk)
+    chk.guard(lambda c_: core.include_findings(c_, 'C10', files=['ciderpress/lib/mod_cider/cider_coefs.c', 'ciderpress/lib/mod_cider/convolutions.c', 'ciderpress/lib/mod_cider/conv_interpolation.c', 'ciderpress/lib/mod_cider/fast_sdmx.c', 'ciderpress/lib/mod_cider/sph_harm.c'], rules=None,
+                                               why='a data race in the anchored feature kernels makes the features schedule dependent'))
 
 
 def mutants(tree):
